@@ -4,6 +4,7 @@ import (
 	"bytes"
 	"fmt"
 	"math/bits"
+	"runtime/debug"
 	"sort"
 	"strings"
 
@@ -321,7 +322,7 @@ func c33Configs(c *lib.Ctx) []simx.ChainCfg {
 			}
 		}
 	}
-	pols := lib.Pick(c, []string{""}, []string{"", "-close"})
+	pols := lib.Pick(c, []string{""}, []string{"", "-open"})
 	for _, m := range dramKinds {
 		for _, pol := range pols {
 			for _, st := range [][]string{{}, {"wb"}} {
@@ -393,6 +394,9 @@ func init() {
 		},
 		Run: func(c *lib.Ctx) {
 			c33Ctx = c
+			// every run builds a fresh engine and assembly: let the heap grow instead of
+			// collecting every few runs (the workers are short-lived)
+			defer debug.SetGCPercent(debug.SetGCPercent(1000))
 			lib.Cases(c, func(y func(c33Case) bool) { enumC33(c, y) }, runC33)
 			lib.CleanScratch()
 			s := c33Stats
